@@ -12,6 +12,11 @@ def sel_bytes(sel):
     return sel.encode("utf-8", "surrogateescape")
 
 
+def sel_bytes_to_str(b):
+    """bytes -> selector str (inverse of sel_bytes)"""
+    return b.decode("utf-8", "surrogateescape")
+
+
 def lat(b):
     return b.decode("latin-1")
 
@@ -112,6 +117,48 @@ def climber_selectors(rng, names, n):
         out.append("/" + up + "/md|/MAILDIR-MESSAGE/1")
         out.append("/" + up + "/script.sh?hello")
         out.append("/" + up + "/script.sh|x y")
+    return out
+
+
+# characters and byte sequences that some normalisation (Unicode NFKC/NFKD, case folding, overlong UTF-8 decoding,
+# Windows path rules) would turn into "." or "/": a server must treat them as ordinary name characters
+DOT_ALIKES = ["\uff0e", "\u2024", "\ufe52", "\udcc0\udcae", "\u3002", "\uff61", "%u002e"]
+DOTDOT_ALIKES = ["\u2025", "\uff0e\uff0e", "\u2024\u2024", ".\u2024", "\uff0e.", "\udcc0\udcae\udcc0\udcae", ".\u200b.", ".\u00ad.",
+                 "\ufe52\ufe52", "\u2026"]
+SLASH_ALIKES = ["\uff0f", "\u2215", "\u2044", "\udcc0\udcaf", "\u29f8", "\uff3c"]
+
+
+def lookalike_selectors(rng, names):
+    """Selectors that spell a climb with look-alikes of '.' and '/'.  None of them contains a real climbing component."""
+    targets = ["secret.txt", "secretdir/x.txt", "secret.txt.abstract", "secretdir", "root2/secret.txt", "mail.mbox|/MBOX-MESSAGE/1",
+               "script.sh?x"]
+    out = []
+    for dd in DOTDOT_ALIKES:
+        tg = rng.choice(targets)
+        out.append("/" + dd + "/" + tg)
+        out.append("/" + rng.choice(names) + "/" + dd + "/" + dd + "/" + rng.choice(targets))
+    for sl in SLASH_ALIKES:
+        out.append("/dir1" + sl + ".." + sl + ".." + sl + rng.choice(targets))     # contains "..": must be not-found anyway
+        out.append("/" + rng.choice(DOTDOT_ALIKES) + sl + rng.choice(targets))
+    for d in DOT_ALIKES:
+        out.append("/" + d + d + "/" + rng.choice(targets))
+        out.append("/dir1/" + d + d + "/" + d + d + "/secret.txt")
+        out.append("/" + d + "/a.txt")
+    return out
+
+
+SHELL_SUFFIXES = ["x;cat secret.txt", "$(cat secret.txt)", "`cat secret.txt`", "x|cat secret.txt", "x&&cat secret.txt", "x\ncat secret.txt",
+                  "x>pwned.txt", "x;cat${IFS}secret.txt", "x;cat secretdir/x.txt", "-c cat secret.txt", "x';cat secret.txt;'",
+                  "x\";cat secret.txt;\"", "x;ls", "x;pwd", "$HOME", "x*", "~"]
+
+
+def shell_selectors(scripts):
+    """Virtual-argument suffixes full of shell syntax for every script: arguments are data, never a command line."""
+    out = []
+    for sc in scripts:
+        for suf in SHELL_SUFFIXES:
+            for sep in ("?", "|"):
+                out.append("/" + sc + sep + suf)
     return out
 
 
